@@ -141,7 +141,7 @@ func main() {
 	}
 	cluster.FatalHandler = func(node, msg string) {
 		// the library is about to os.Exit(1): record and flush first
-		m.AddViolation(mon.Violation{Props: []string{"C14", "C18"}, Sig: "fatal", Node: node, Msg: fmt.Sprintf("node %s aborted the process: %s", node, msg)})
+		// (the monitor turned the fatal event into a violation when it was recorded)
 		res.Trace = x.TraceHash()
 		finish("")
 		os.RemoveAll(root)
